@@ -600,3 +600,9 @@ package analysis
 //@   ensures result1 == nil && noRef(*opts.Schema) && arrType(*opts.Schema) && (opts.Schema.Items == nil || isnil(opts.Schema.Items.Schemas)) ==> !complexA(*result) && result.IsArray
 //@   ensures result1 == nil && noRef(*opts.Schema) && objType(*opts.Schema) && hasAP(*opts.Schema) && len(opts.Schema.Properties) == 0 && len(opts.Schema.AllOf) == 0 ==> !complexA(*result) && result.IsMap
 //@   ensures result1 == nil && noRef(*opts.Schema) && objType(*opts.Schema) && !hasAP(*opts.Schema) && !hasAI(*opts.Schema) && len(opts.Schema.Properties) == 0 && len(opts.Schema.AllOf) == 0 ==> !complexA(*result) && result.IsKnownType
+//@   ensures result1 == nil && noRef(*opts.Schema) ==> result.IsTuple == (hasIt(*opts.Schema) && !isnil(opts.Schema.Items.Schemas) && !hasAI(*opts.Schema))
+//@   ensures result1 == nil && noRef(*opts.Schema) ==> result.IsTupleWithExtra == (hasIt(*opts.Schema) && !isnil(opts.Schema.Items.Schemas) && hasAI(*opts.Schema))
+//@   ensures result1 == nil && noRef(*opts.Schema) ==> result.IsArray == (arrType(*opts.Schema) && (opts.Schema.Items == nil || isnil(opts.Schema.Items.Schemas)))
+//@   ensures result1 == nil && noRef(*opts.Schema) ==> result.IsMap == (objType(*opts.Schema) && hasAP(*opts.Schema) && len(opts.Schema.Properties) == 0 && len(opts.Schema.AllOf) == 0)
+//@   ensures result1 == nil && noRef(*opts.Schema) ==> result.IsExtendedObject == (objType(*opts.Schema) && hasAP(*opts.Schema) && (len(opts.Schema.Properties) > 0 || len(opts.Schema.AllOf) > 0))
+//@   ensures result1 == nil && noRef(*opts.Schema) ==> result.IsEnum == (len(opts.Schema.Enum) > 0)
